@@ -42,6 +42,9 @@ type model struct {
 }
 
 func decodeObject(b []byte) (map[string]any, bool) {
+	if !json.Valid(b) {
+		return nil, false // also rejects trailing garbage such as "{}}" (Decoder.More does not)
+	}
 	d := json.NewDecoder(bytes.NewReader(b))
 	d.UseNumber()
 	var v any
